@@ -261,7 +261,7 @@ BOUNDS = {
              'up to 6 widths (incl. 0, negative, 10000 for center/zfill) x up to 4 settings/specs; range/index arguments from (-7,-1,0,2,99) (thorough: ALL integers / None where '
              'the operation does not realise them, full palettes); after an error: receiver unchanged; after success: 8 renderings, every index, slices, concatenations, simplify, copy under WITH_ASSERTIONS; '
              'per-path watchdog for termination' % (len(OPS), N_RECV),
-    'thorough': 'quick tier plus two operations in sequence: each operation group after any of the 35 groups (3 argument variants) on 4 receivers',
+    'thorough': 'quick-tier palettes on all 11 receivers, plus two operations in sequence: each operation group after any of the 35 groups (3 argument variants) on 4 receivers',
 }
 OUTSIDE = ('histories longer than builder + 2 operations; termination is bounded by the per-path watchdog (30 s) and replayed concretely; arguments outside the palettes')
 ASSUMPTIONS = ['allowed error types: TypeError, ValueError, IndexError for an out-of-range integer index, or the type str raises for the same call']
@@ -309,9 +309,11 @@ def obligations(tier):
             obs.append(Ob('op/%s' % name, h_op, fq, need=('success',), budget=900, per_path=30,
                           bounds='operation group %s on 5 receivers, 3x2 strings, 5 integers' % name, kinds=KINDS))
         else:
-            f2 = dict(fixed, lite=True, xi=1, yi=2, wi=min(2, d.get('w', 0)), qmax=min(1, d.get('q', 0)))
-            obs.append(Ob('op2/%s' % name, h_op, f2, need=('success',), budget=3000, per_path=30,
-                          bounds='%s after any of the %d operation groups (3 argument variants) on 4 receivers; integers from 7 values' % (name, len(OPS)), kinds=KINDS))
-            obs.append(Ob('op/%s' % name, h_op, fixed, need=('success',), budget=3000, per_path=30,
-                          bounds='operation group %s on %d receivers' % (name, N_RECV), kinds=KINDS))
+            f2 = dict(fixed, lite=True, xi=1, yi=2, wi=min(1, d.get('w', 0)), qmax=min(1, d.get('q', 0)), ints=(-1, 0, 2))
+            obs.append(Ob('op2/%s' % name, h_op, f2, need=('success',), budget=1500, per_path=30,
+                          bounds='%s after any of the %d operation groups (3 argument variants) on 4 receivers; integers from (-1,0,2)' % (name, len(OPS)), kinds=KINDS))
+            ft = dict(fixed, nx=4, ny=3 if name == 'replace' else 2, ints=(-7, -1, 0, 2, 99), wmax=min(fixed['wmax'], 2) if name not in ('center', 'zfill') else fixed['wmax'],
+                      qmax=min(fixed['qmax'], 3))
+            obs.append(Ob('op/%s' % name, h_op, ft, need=('success',), budget=1500, per_path=30,
+                          bounds='operation group %s on all %d receivers, quick-tier argument palettes' % (name, N_RECV), kinds=KINDS))
     return obs
